@@ -118,6 +118,10 @@ def run(F, cfg, inp):
         z.resize(dtype=x.get_dtype('fxp'))
         ob['ctor'] = C.fmt_of(y) + [y.vdtype == complex]
         ob['resize'] = C.fmt_of(z) + [z.vdtype == complex]
+        z2 = F.Fxp(0, s, n, f)                # a real object that already has the sizes: only the complex suffix (if any) is new
+        z2.resize(dtype=x.get_dtype('fxp'))
+        z2.get_dtype()
+        ob['resize_same_sizes'] = C.fmt_of(z2) + [z2.vdtype == complex, z2.dtype]
         if n - f >= 0:
             q = x.get_dtype('Q')
             w = F.Fxp(None, dtype=q)
@@ -172,6 +176,8 @@ def post(cfg, inp, ob):
         s, n, f, cx = cfg['signed'], cfg['n_word'], cfg['n_frac'], cfg['complex']
         out = [('ctor_roundtrip', ob['ctor'] == [s, n, f, cx]), ('resize_roundtrip', ob['resize'] == [s, n, f, cx]),
                ('ctor_with_like_template_roundtrip', ob['ctor_like'] == [s, n, f, cx])]
+        fx_ = 'fxp-%s%d/%d%s' % ('s' if s else 'u', n, f, '-complex' if cx else '')
+        out.append(('resize_of_an_object_with_the_same_sizes_roundtrip', ob['resize_same_sizes'] == [s, n, f, cx, fx_]))
         fx_ = 'fxp-%s%d/%d%s' % ('s' if s else 'u', n, f, '-complex' if cx else '')
         q_ = ('Q' if s else 'UQ') + '%d.%d' % (n - f, f)
         out.append(('get_dtype_after_other_notation', ob['get_dtype_sequence'] == [fx_, fx_ if cfg['default'] == 'fxp' else q_]))
